@@ -34,6 +34,8 @@ pub const T_DS: u16 = 43;
 pub const T_RRSIG: u16 = 46;
 pub const T_NSEC: u16 = 47;
 pub const T_DNSKEY: u16 = 48;
+pub const T_NSEC3: u16 = 50;
+pub const T_NSEC3PARAM: u16 = 51;
 
 /// Types derived by signing (dropped from the RFC 2136 view of the zone). The DNSKEY RRset is
 /// ordinary zone data (an UPDATE may add or delete it) and stays.
@@ -53,8 +55,17 @@ fn zone_signer() -> DnssecSigner {
 /// A signed zone behind a DNSSEC-enabled `SqliteZoneHandler`.
 pub fn signed_env(zone: &[Rr], signers: Vec<hickory_proto::rr::TSigner>) -> Env {
     let serial = zone.iter().find(|r| r.rtype == vref::update::T_SOA).and_then(|r| vref::update::soa_serial(&r.rdata)).unwrap_or(0);
-    let mut z = InMemoryZoneHandler::<SimProvider>::empty(vupd::hname(vupd::ORIGIN), ZoneType::Primary, AxfrPolicy::AllowAll, Some(NxProofKind::Nsec));
-    for rr in zone {
+    // an NSEC3PARAM RR in the configured zone selects NSEC3 with its parameters (the RR itself is
+    // produced by secure_zone)
+    let kind = match zone.iter().find(|r| r.rtype == T_NSEC3PARAM) {
+        Some(p) if p.rdata.len() >= 5 => {
+            let sl = p.rdata[4] as usize;
+            NxProofKind::Nsec3 { algorithm: Default::default(), salt: p.rdata[5..5 + sl].to_vec().into(), iterations: u16::from_be_bytes([p.rdata[2], p.rdata[3]]), opt_out: false }
+        }
+        _ => NxProofKind::Nsec,
+    };
+    let mut z = InMemoryZoneHandler::<SimProvider>::empty(vupd::hname(vupd::ORIGIN), ZoneType::Primary, AxfrPolicy::AllowAll, Some(kind));
+    for rr in zone.iter().filter(|r| r.rtype != T_NSEC3PARAM) {
         z.upsert_mut(vupd::to_record(rr), serial);
     }
     z.add_zone_signing_key_mut(zone_signer()).expect("add_zone_signing_key_mut");
@@ -165,6 +176,11 @@ pub fn check(v: &View, now: u64) -> BTreeSet<(String, String)> {
             ));
         }
     }
+    // 2'. an NSEC3 zone: the NSEC3 RRs are exactly the RFC 5155 7.1 chain of the current content
+    if let Some((params, _)) = v.rrsets.get(&(origin.clone(), T_NSEC3PARAM)) {
+        check_nsec3(v, &origin, params, &mut out);
+        return out;
+    }
     // 2. the NSEC chain is the canonical chain of the current content
     let mut owners: Vec<&Labels> = v.rrsets.iter().filter(|((n, t), _)| *t != T_NSEC && *t != T_RRSIG && !below_cut(n)).map(|((n, _), _)| n).collect::<BTreeSet<_>>().into_iter().collect();
     owners.sort_by(|a, b| vref::name::canonical_cmp(a, b));
@@ -213,4 +229,93 @@ pub fn check(v: &View, now: u64) -> BTreeSet<(String, String)> {
         }
     }
     out
+}
+
+
+/// NSEC3 zone: owner hashes, next pointers and type bitmaps against `vref::denial::nsec3_chain`
+/// (RFC 5155 7.1: every authoritative name, every delegation, every empty non-terminal). States
+/// that hold empty RRset keys are not judged here (the open empty-key finding shows in the NSEC
+/// sub-grid; which of its many shapes an NSEC3 chain takes adds nothing).
+fn check_nsec3(v: &View, origin: &Labels, params: &[Vec<u8>], out: &mut BTreeSet<(String, String)>) {
+    use vref::zone as vz;
+    if !v.empty_keys.is_empty() {
+        return;
+    }
+    let Some(p) = params.first().filter(|p| p.len() >= 5) else {
+        out.insert(("dnssec:nsec3-chain:bad-nsec3param".into(), "NSEC3PARAM RDATA too short".into()));
+        return;
+    };
+    let iterations = u16::from_be_bytes([p[2], p[3]]);
+    let salt = p[5..5 + p[4] as usize].to_vec();
+    let mut zone = vz::Zone::new(vz::Name(origin.clone()));
+    for ((name, rtype), (rds, _)) in &v.rrsets {
+        if matches!(*rtype, T_RRSIG | T_NSEC | T_NSEC3 | T_NSEC3PARAM) || rds.is_empty() {
+            continue;
+        }
+        zone.add(&vz::Name(name.clone()), *rtype, vz::RData::Other("x".into()));
+    }
+    // occluded data at a cut (a name holding NS next to other types): which of it belongs into the
+    // bitmap is not judged (as in the NSEC sub-grid)
+    let occluded_cuts: BTreeSet<Vec<u8>> = v
+        .rrsets
+        .keys()
+        .filter(|(n, t)| *t == 2 && n != origin)
+        .filter(|(n, _)| v.rrsets.keys().any(|(m, t)| m == n && !matches!(*t, 2 | 43 | T_RRSIG | T_NSEC3)))
+        .map(|(n, _)| vref::denial::nsec3_hash(&vz::Name(n.clone()), &salt, iterations))
+        .collect();
+    let chain = vref::denial::nsec3_chain(&zone, &salt, iterations, false);
+    // at a delegation hickory also sets the RRSIG bit (the NS RRset there is not signed; RFC 5155
+    // 7.1 lists RRSIG only for names that own a signed RRset): chain-construction detail of the
+    // signer, not of the update path - either bitmap is taken at zone cuts
+    let alt: BTreeMap<Vec<u8>, Vec<u8>> = chain
+        .iter()
+        .filter(|r| r.types.contains(&2) && !r.types.contains(&6))
+        .map(|r| {
+            let mut t = r.types.clone();
+            t.insert(T_RRSIG);
+            (r.hash.clone(), vref::denial::type_bitmap_wire(&t))
+        })
+        .collect();
+    let want: BTreeMap<Vec<u8>, (Vec<u8>, Vec<u8>)> = chain.into_iter().map(|r| (r.hash.clone(), (r.next.clone(), vref::denial::type_bitmap_wire(&r.types)))).collect();
+    let mut got: BTreeMap<Vec<u8>, (Vec<u8>, Vec<u8>)> = BTreeMap::new();
+    for ((name, rtype), (rds, _)) in &v.rrsets {
+        if *rtype != T_NSEC3 {
+            continue;
+        }
+        let hash = name.first().and_then(|l| vref::denial::base32hex_decode(&String::from_utf8_lossy(l).to_ascii_lowercase()));
+        let (Some(hash), Some(rd)) = (hash, rds.first()) else {
+            out.insert(("dnssec:nsec3-chain:unreadable-nsec3".into(), format!("NSEC3 at {} is not readable", vupd::name_str(name))));
+            continue;
+        };
+        if rds.len() != 1 || rd.len() < 6 {
+            out.insert(("dnssec:nsec3-chain:several-nsec3-at-one-name".into(), format!("{} NSEC3 RRs at {}", rds.len(), vupd::name_str(name))));
+            continue;
+        }
+        let sl = rd[4] as usize;
+        let hl = rd[5 + sl] as usize;
+        if u16::from_be_bytes([rd[2], rd[3]]) != iterations || rd[5..5 + sl] != salt[..] {
+            out.insert(("dnssec:nsec3-chain:parameters-differ-from-nsec3param".into(), format!("NSEC3 at {} has other parameters than the NSEC3PARAM", vupd::name_str(name))));
+        }
+        got.insert(hash, (rd[6 + sl..6 + sl + hl].to_vec(), rd[6 + sl + hl..].to_vec()));
+    }
+    for (h, (next, bm)) in &want {
+        match got.get(h) {
+            None => {
+                out.insert(("dnssec:nsec3-chain:name-without-nsec3".into(), format!("no NSEC3 for hash {} (RFC 5155 7.1 wants one per authoritative name, delegation and empty non-terminal)", vref::denial::base32hex(h))));
+            }
+            Some((gn, gb)) => {
+                if gn != next {
+                    out.insert(("dnssec:nsec3-chain:wrong-next-hash".into(), format!("NSEC3 {} points to {}, the next hash in the chain is {}", vref::denial::base32hex(h), vref::denial::base32hex(gn), vref::denial::base32hex(next))));
+                }
+                if gb != bm && alt.get(h) != Some(gb) && !occluded_cuts.contains(h) {
+                    out.insert(("dnssec:nsec3-chain:wrong-type-bitmap".into(), format!("NSEC3 {} has type bitmap {}, RFC 5155 7.1 gives {}", vref::denial::base32hex(h), vcore::hex::enc(gb), vcore::hex::enc(bm))));
+                }
+            }
+        }
+    }
+    for h in got.keys() {
+        if !want.contains_key(h) {
+            out.insert(("dnssec:nsec3-chain:nsec3-for-a-name-that-has-none".into(), format!("NSEC3 {} matches no authoritative name, delegation or empty non-terminal of the zone", vref::denial::base32hex(h))));
+        }
+    }
 }
